@@ -6,6 +6,7 @@ package engine
 
 import (
 	"fmt"
+	"os"
 	"go/types"
 	"runtime"
 	"sort"
@@ -822,11 +823,15 @@ func (e *Engine) initGlobals() {
 	in := absint.New(e.P, c, dom.NewTrace(c))
 	in.NoGlobalEvents = true
 	in.LenientExternals = true
+	in.Unroll = true
 	in.ReadableGlobals = e.InitOnly
 	if g := sp.Var("init$guard"); g != nil {
 		in.InitOverride["global:"+g.RelString(nil)+"|"] = c.Const(1, 0)
 	}
 	_, out, err := in.Run(initf, nil, absint.NewState())
+	if err != nil && os.Getenv("VERIF_DEBUG") != "" {
+		fmt.Println("package initialisation not interpreted:", err)
+	}
 	if err != nil {
 		return // initialisation outside the modelled fragment: globals stay symbolic (reads are then reported)
 	}
